@@ -93,13 +93,13 @@ func c08Units(ctx *core.Ctx) []core.Unit {
 						}
 						// fresh receiver
 						x, y := ea, eb
-						var z banderwagon.Element
+						z := dirtyEl()
 						z.Add(&x, &y)
 						chk("banderwagon.Element.Add", &z, sum)
 						if x != ea || y != eb {
 							vio(r, "c08.operand_intact", "banderwagon.Element.Add", in, "operands unchanged", "modified")
 						}
-						var z2 banderwagon.Element
+						z2 := dirtyEl()
 						z2.Sub(&x, &y)
 						chk("banderwagon.Element.Sub", &z2, diff)
 						if x != ea || y != eb {
@@ -123,7 +123,7 @@ func c08Units(ctx *core.Ctx) []core.Unit {
 						bx, by := ref.Affine(elToRef(&eb))
 						aff := bandersnatch.PointAffine{X: fpFromBig(bx), Y: fpFromBig(by)}
 						x = ea
-						var z3 banderwagon.Element
+						z3 := dirtyEl()
 						z3.AddMixed(&x, aff)
 						chk("banderwagon.Element.AddMixed", &z3, sum)
 						x.AddMixed(&x, aff)
@@ -141,7 +141,7 @@ func c08Units(ctx *core.Ctx) []core.Unit {
 					}
 				}
 				x := ea
-				var z banderwagon.Element
+				z := dirtyEl()
 				z.Double(&x)
 				chk("banderwagon.Element.Double", &z, dbl)
 				x.Double(&x)
@@ -205,7 +205,7 @@ func c08Units(ctx *core.Ctx) []core.Unit {
 						r.Nontrivial += 2
 						x := ea
 						sc := se
-						var z banderwagon.Element
+						z := dirtyEl()
 						if guard(r, "c08.panic", "banderwagon.Element.ScalarMul", in, func() { z.ScalarMul(&x, &sc) }) {
 							if msg := validSame(&z, want); msg != "" {
 								vio(r, "c08.scalarmul", "banderwagon.Element.ScalarMul", in, affStr(want), msg)
